@@ -605,7 +605,9 @@ def g_find_peaks(sc, T, R, grng):
         cf = grng.choice([None, centroid_com, centroid_quadratic])
         if cf is not None and box == 4:      # centroid_sources wants odd boxes
             box = 5
-        kw = dict(box_size=box, footprint=fp, border_width=bw, mask=m if use_mask else None, centroid_func=cf)
+        npk = grng.choice([np.inf, np.inf, 2, 3]) if bw is None else np.inf     # brightest-N selection
+        kw = dict(box_size=box, footprint=fp, border_width=bw, mask=m if use_mask else None, centroid_func=cf,
+                  npeaks=npk)
         kwT = dict(kw, mask=M if use_mask else None)
         t0 = find_peaks(d, thr, **kw)
         t1 = find_peaks(D, thr, **kwT)
@@ -619,6 +621,7 @@ def g_find_peaks(sc, T, R, grng):
             keep = np.ones(len(p1s), bool)
         det = lambda: {'threshold': thr, 'box_size': box, 'footprint': None if fp is None else fp.astype(int).tolist(),
                        'border_width': bw, 'mask': use_mask, 'centroid_func': getattr(cf, '__name__', None),
+                       'npeaks': None if npk == np.inf else npk,
                        'peaks': p0.tolist()[:30], 'canvas_peaks_minus_offset': p1s[keep].tolist()[:30]}
         R.ok('find_peaks', 'x_peak/y_peak move by (dx,dy), same peaks, same values, same order',
              p0.shape == p1s[keep].shape and bool(np.array_equal(p0, p1s[keep])), det)
@@ -1333,10 +1336,13 @@ def g_centroids(sc, T, R, grng):
         fbT = fb if (shift or np.isscalar(fb)) else fb[::-1]
         xp, yp = hx + grng.choice([-1, 0, 1]), hy + grng.choice([-1, 0, 1])
         xpT, ypT = T.xy(xp, yp)
-        q0 = centroid_quadratic(st, xpeak=xp, ypeak=yp, fit_boxsize=fb, **mk0)
-        q1 = centroid_quadratic(ST, xpeak=xpT, ypeak=ypT, fit_boxsize=fbT, **mk1)
+        sb = grng.choice([None, 3, 5, (3, 5), (5, 3)])
+        sbT = sb if (shift or sb is None or np.isscalar(sb)) else sb[::-1]
+        q0 = centroid_quadratic(st, xpeak=xp, ypeak=yp, fit_boxsize=fb, search_boxsize=sb, **mk0)
+        q1 = centroid_quadratic(ST, xpeak=xpT, ypeak=ypT, fit_boxsize=fbT, search_boxsize=sbT, **mk1)
         rel('centroid_quadratic', 'centroid (xpeak/ypeak given)', q1, q0, 1e-7,
-            lambda: dict(det, fit_boxsize=fb, peak=(xp, yp), original=js(q0), transformed=js(q1)), shape=st.shape)
+            lambda: dict(det, fit_boxsize=fb, search_boxsize=sb, peak=(xp, yp), original=js(q0), transformed=js(q1)),
+            shape=st.shape)
         if shift:
             # whole-stamp Gaussian fits: only with the padding masked (support)
             pm = np.ones(ST.shape, bool)
@@ -1359,6 +1365,39 @@ def g_centroids(sc, T, R, grng):
             q0 = centroid_quadratic(st, **mk0)
             q1 = centroid_quadratic(ST, **mk1)
             rel('centroid_quadratic', 'centroid (peak searched)', q1, q0, 1e-7, lambda: dict(det, original=js(q0), transformed=js(q1)))
+    # centroid_sources forwarding xpeak / ypeak / fit_boxsize / search_boxsize to centroid_quadratic (the peak
+    # keywords are scalars: one source per call), non-square box_size or footprint
+    d0 = d - sc['bkg']
+    D0 = T.img(d0, 0.0) if shift else T.img(d0)
+    for s_ in sc['srcs'][:4]:
+        box = grng.choice([(7, 11), (11, 7), (9, 13), 9])
+        by, bx = (box, box) if np.isscalar(box) else box
+        x_, y_ = s_['x0'] + grng.uniform(-0.8, 0.8), s_['y0'] + grng.uniform(-0.8, 0.8)
+        if not (round(x_) - bx // 2 >= 0 and round(x_) + bx // 2 <= nx - 1 and round(y_) - by // 2 >= 0
+                and round(y_) + by // 2 <= ny - 1):
+            R.skip('centroid_sources', 'box-not-inside-frame')
+            continue
+        xp_, yp_ = round(s_['x0']) + grng.choice([-1, 0, 0, 1]), round(s_['y0']) + grng.choice([-1, 0, 0, 1])
+        fb = grng.choice([3, 5, (3, 5), (5, 3)])
+        sb = grng.choice([None, 3, (3, 5), (5, 3)])
+        use_fp = grng.random() < 0.4
+        fp = np.ones((by, bx), bool)
+        fp[0, 0] = fp[-1, 0] = False
+        sw = (lambda v: v if (shift or v is None or np.isscalar(v)) else v[::-1])
+        xpT_, ypT_ = T.xy(xp_, yp_)
+        xT_, yT_ = T.xy(x_, y_)
+        geo0 = dict(footprint=fp) if use_fp else dict(box_size=box)
+        geo1 = dict(footprint=fp if shift else np.ascontiguousarray(fp.T)) if use_fp else dict(box_size=sw(box))
+        use_mask = grng.random() < 0.4
+        a = centroid_sources(d0, [x_], [y_], centroid_func=centroid_quadratic, xpeak=xp_, ypeak=yp_, fit_boxsize=fb,
+                             search_boxsize=sb, mask=m if use_mask else None, **geo0)
+        b = centroid_sources(D0, [xT_], [yT_], centroid_func=centroid_quadratic, xpeak=xpT_, ypeak=ypT_, fit_boxsize=sw(fb),
+                             search_boxsize=sw(sb), mask=M if use_mask else None, **geo1)
+        c0_, c1_ = np.array([a[0][0], a[1][0]]), np.array([b[0][0], b[1][0]])
+        # (the vertex test of centroid_quadratic is relative to the CUTOUT here, which moves with the source)
+        rel('centroid_sources', 'centroid with xpeak/ypeak/fit_boxsize/search_boxsize forwarded to centroid_quadratic',
+            c1_, c0_, 1e-7, lambda: dict(position=(x_, y_), peak=(xp_, yp_), box_size=box, footprint=use_fp, fit_boxsize=fb,
+                                         search_boxsize=sb, mask=use_mask, original=js(c0_), transformed=js(c1_)))
     # centroid_sources on the full scene
     pos = [(s['x0'] + grng.uniform(-1, 1), s['y0'] + grng.uniform(-1, 1)) for s in sc['srcs']]
     xs0, ys0 = np.array([p[0] for p in pos]), np.array([p[1] for p in pos])
